@@ -423,6 +423,332 @@ def f_reference(a):
     return f_obs(ns[0], ns[1]), [_f_off2(n) for n in ns], ns[0].tzinfo is ns[1].tzinfo
 
 
+# ----------------------------------------------------------------------------- process-wide configuration + naive receivers (stream family dt-cfg-*)
+# fn dt_cfg, args [steps, route, W, fold, target, kind]: the case performs the configuration HISTORY `steps` itself (and restores what it found), then asks a
+# NAIVE DateTime every standard accessor and astimezone:
+#   steps   [["set", zone | None], ["test_enter", zone], ["test_exit"], ["rejected", k]]   set_local_timezone / test_local_timezone / a rejected configuration call
+#   route   0 DateTime(*fields, fold) | 1 pendulum.naive(*fields, fold) | 2 DateTime(*fields, tzinfo=<Europe/Paris>, fold).replace(tzinfo=None)
+#   target  zone spec | None ;  kind 0 the pendulum timezone object | 1 the stdlib tzinfo | 2 astimezone() without argument
+CFG_ZONES = ["Asia/Tokyo", "America/Toronto", "Asia/Kathmandu", "Europe/Paris", "Australia/Lord_Howe", "Pacific/Apia", 20700, -12600, 3600, "UTC", 0]
+CFG_TARGETS = ["UTC", "Europe/Paris", "America/New_York", "Asia/Kolkata", "Australia/Lord_Howe", "Asia/Kathmandu", 0, 3600, -12600, 19800]
+CFG_REJECTED = 4
+
+
+def _cfg_histories(rnd):
+    z = lambda: CFG_ZONES[rnd.randrange(len(CFG_ZONES))]   # noqa
+    return [[], [["set", z()]], [["test_enter", z()]], [["set", z()], ["set", z()]], [["rejected", rnd.randrange(CFG_REJECTED)], ["set", z()]],
+            [["set", z()], ["rejected", rnd.randrange(CFG_REJECTED)]], [["set", z()], ["set", None]], [["test_enter", z()], ["test_exit"]],
+            [["set", z()], ["test_enter", z()], ["test_exit"]], [["rejected", rnd.randrange(CFG_REJECTED)]], [["set", None], ["test_enter", z()]]]
+
+
+def cfg_cases(tier, seed):
+    rnd = random.Random(seed * 104729 + 5)
+    out = []
+    walls = list(F_WALLS) + [_w(2021, 1, 15, 12), _w(2021, 7, 15, 23, 30, 15, 123456), _w(1999, 12, 31, 23, 59, 59, 999999)]
+    n = 700 if tier == "quick" else 12000
+    i = 0
+    while len(out) < n:
+        for h in _cfg_histories(rnd):
+            i += 1
+            if i % 3 == 0:
+                W = walls[rnd.randrange(len(walls))]
+            elif i % 3 == 1:
+                # around a transition of the target / a configured zone (read as UTC and as local wall time)
+                name = [zz for zz in CFG_ZONES + CFG_TARGETS if isinstance(zz, str)][rnd.randrange(13)]
+                trs = T.transition_probes(name, rnd, per_zone=2)
+                W = None
+                if trs:
+                    tt, o_pre, o_post = trs[rnd.randrange(len(trs))]
+                    pr = [w for w in T.wall_probes(tt, o_pre, o_post) if _ok_wall(w)]
+                    if pr:
+                        W = pr[rnd.randrange(len(pr))] - (o_pre if rnd.randrange(2) else 0) * T.MEG
+                if W is None or not _ok_wall(W):
+                    W = rnd.randrange(T.US_DAY * 400, T.MAX_WALL - T.US_DAY * 400)
+            else:
+                W = rnd.randrange(T.US_DAY * 400, T.MAX_WALL - T.US_DAY * 400)
+            kind = rnd.randrange(3) if i % 5 else 2
+            target = None if kind == 2 else CFG_TARGETS[rnd.randrange(len(CFG_TARGETS))]
+            stream = "dt-cfg-" + ("default" if not h else "rejected-only" if all(st[0] == "rejected" for st in h) else "local-timezone")
+            out.append({"stream": stream, "fn": "dt_cfg", "args": [h, i % 3, W, rnd.randrange(2), target, kind]})
+    return out[:n]
+
+
+def _cfg_determined(steps):
+    """does the history itself fix the local-timezone setting (so that the answer of pendulum.local_timezone() may be reported)?"""
+    return any(st[0] in ("set", "test_enter", "test_exit") for st in steps)
+
+
+def _cfg_impl(pendulum, a):
+    import sys
+    steps, route, W, f, target, kind = a
+    lt = sys.modules["pendulum.tz.local_timezone"]
+    saved = lt._mock_local_timezone
+    cms = []
+    try:
+        for st in steps:
+            if st[0] == "set":
+                pendulum.set_local_timezone(None if st[1] is None else T.pzone(st[1]))
+            elif st[0] == "test_enter":
+                cm = pendulum.test_local_timezone(T.pzone(st[1]))
+                cm.__enter__()
+                cms.append(cm)
+            elif st[0] == "test_exit":
+                if cms:
+                    cms.pop().__exit__(None, None, None)
+                else:
+                    pendulum.set_local_timezone()
+            else:
+                try:
+                    [lambda: pendulum.set_locale("tlh"), lambda: pendulum.week_starts_at(9), lambda: pendulum.timezone("No/Where"),
+                     lambda: pendulum.set_local_timezone(pendulum.timezone("Mars/Olympus"))][st[1] % CFG_REJECTED]()
+                except Exception:  # noqa: expected
+                    pass
+        y, mo, d, h, mi, s, us = T.fields_of(W)
+        if route == 0:
+            p = pendulum.DateTime(y, mo, d, h, mi, s, us, fold=f)
+        elif route == 1:
+            p = pendulum.naive(y, mo, d, h, mi, s, us, fold=f)
+        else:
+            p = pendulum.DateTime(y, mo, d, h, mi, s, us, tzinfo=T.pzone("Europe/Paris"), fold=f).replace(tzinfo=None)
+        n = T.native(W, f, None)
+        tz2 = None if kind == 2 else T.pzone(target) if kind == 0 else T.ref_zone(target)
+
+        def astz(x):
+            try:
+                r = x.astimezone() if kind == 2 else x.astimezone(tz2)
+            except Exception as e:  # noqa
+                return ["E", type(e).__name__]
+            same = (type(r.tzinfo) is _dt.timezone) if kind == 2 else (r.tzinfo is tz2)
+            return [_tname(r), T.wall_of(r), r.fold, T.off_s(r), 1 if same else 0]
+        ra, ea = astz(p), astz(n)
+        po = obs_dt(p, FMT_NOZ)
+        da = diff_obs(po, expect_pendulum(obs_dt(n, FMT_NOZ)))
+        cmpn = [1 if p == n else 0, 1 if n == p else 0, 1 if hash(p) == hash(n) else 0]
+        loc_off = None
+        if _cfg_determined(steps):
+            u = T.native(W - W % T.MEG, 0, _dt.timezone.utc)
+            loc_off = T.off_s(u.astimezone(pendulum.local_timezone()))
+        return [0, ra, ea, [_tname(p), T.wall_of(p), p.fold, 1 if p.tzinfo is None else 0], da, cmpn, dict(po)["timestamp"], loc_off]
+    finally:
+        while cms:
+            try:
+                cms.pop().__exit__(None, None, None)
+            except Exception:  # noqa
+                pass
+        pendulum.set_local_timezone(saved)
+
+
+def _cfg_zone_enc(spec, W):
+    u = T.unix_of_wall(W)
+    return T.zone_enc(spec, u - 100000, u + 100000)
+
+
+def cfg_model_calls(a):
+    steps, route, W, f, target, kind = a
+    enc = [0, 0, len(steps)]                           # the system zone: UTC (TZ=UTC in the staged environment)
+    for st in steps:
+        if st[0] == "set":
+            enc += [0] if st[1] is None else [1] + _cfg_zone_enc(st[1], W)
+        elif st[0] == "test_enter":
+            enc += [2] + _cfg_zone_enc(st[1], W)
+        elif st[0] == "test_exit":
+            enc += [3]
+        else:
+            enc += [4]
+    t = 0 if target is None else target
+    return [("dt_astz_cfg", enc + [W, f, 1 if isinstance(t, int) else 0] + _cfg_zone_enc(t, W) + [kind])]
+
+
+def cfg_norm(a, r):
+    ra, loc = r[1], r[7]
+    if ra[0] == "E":
+        return [1, T.EXN.get(ra[1], 14), loc]
+    return [0, 1 if ra[0] == "DateTime" else 0] + ra[1:] + [loc]
+
+
+def cfg_deviations(a, r):
+    steps, route, W, f, target, kind = a
+    dev = []
+    ra, ea, recv, da, cmpn, ts, loc = r[1:8]
+    if recv != ["DateTime", W, f, 1]:
+        dev.append(f"route:receiver obtained by route {route} is {recv}, expected a naive DateTime with wall {W} fold {f}")
+        return dev
+    for k in da:
+        dev.append(f"{k}: differs from the naive datetime.datetime with the same fields (after the configuration history {steps})")
+    if cmpn != [1, 1, 1]:
+        dev.append(f"eq/hash: the naive DateTime does not compare/hash equal to the native value {cmpn}")
+    # the native answer, by the stdlib alone: a naive value is system local time; the staged environment has TZ=UTC
+    if kind == 2:
+        exp = ["DateTime", W, 0, 0, 1]
+    else:
+        try:
+            w2, f2, o2 = T.ref_render(T.ref_zone(target), W)
+            exp = ["DateTime", w2, f2, o2, 1]
+        except (OverflowError, ValueError):
+            exp = None
+    if exp is not None:
+        if ea[0] == "E" or ea[1:4] != exp[1:4]:
+            dev.append(f"twin:native the native naive datetime inside the interpreter answers {ea}, the stdlib reference (TZ=UTC) {exp}")
+        elif ra[0] == "E":
+            dev.append(f"astimezone:raises {ra[1]} but the native naive datetime gives {exp} (history {steps})")
+        elif ra[:4] != exp[:4]:
+            dev.append(f"astimezone: naive receiver after the configuration history {steps}: {ra} but the native naive datetime gives {exp}")
+        elif ra[4] != 1:
+            dev.append(f"astimezone:tzinfo the result's tzinfo is not the tz argument ({ra})")
+    if W > 86400 * T.MEG * 366 and ts != ((W - T.EPOCH_US) / T.MEG).hex():
+        dev.append(f"timestamp: {ts} expected {((W - T.EPOCH_US) / T.MEG).hex()} (TZ=UTC)")
+    return dev
+
+
+# ----------------------------------------------------------------------------- __format__ specs (stream family fmt-spec-*, fn fmt_spec)
+# args [cls, zone, W, fold, spec]: cls 0 DateTime | 1 Date | 2 Time ; the value has the fields of the wall value W (Date: its date, Time: its time of day, zone None | int | "UTC")
+FMT_CONV = "aAbBcdDeFgGhHIjmMnpRSTuUVwWxXyYzZ"
+FMT_FLAGS = ["-", "_", "^", "#", "0", ":", "4", "10", "-3", "E", "O", "_5"]
+FMT_LIT = ["", ":", ".", " ", "-", "/", "T", "[", "]", "100", "é", "at ", "YYYY", "d"]
+FMT_FIXED = ["", "%", "%%", "100%", "100%%", "%Y%", "a%", "%-d", "%-H:%-M", "%_d", "%^b", "%^a", "%#Z", "%4Y", "%:z", "[%:z]", "%-d.%-m.", "%-I", "%-j", "%_H", "%-S s", "%e", "%Ex", "%Od",
+             "YYYY [100%]", "%5%", "% d", "%é", "%-", "%:", "%::z", "%Y-%m-%d", "%H:%M:%S.%f", "%A %d %B %Y", "%j|%U|%W", "%I %p", "%z", "%Z", "%-y", "%-m/%-d/%Y", "%%Y", "%%%-d",
+             "YYYY-MM-DD", "dddd", "HH:mm", "[x]", "Do MMMM", "LT", "x", " "]
+FMT_ZONES = [None, "UTC", "Europe/Paris", "America/St_Johns", "Asia/Kathmandu", 3600, -12600]
+FMT_PORTABLE = set("aAbBdHIjmMpSUwWyYzZ%")
+
+
+def _fmt_random_spec(rnd, cls_kind):
+    """cls_kind 0: every directive flagged | 1: plain directives | 2: mixed | 3: percent signs only | 4: no percent sign"""
+    parts = []
+    for _ in range(1 + rnd.randrange(4)):
+        lit = FMT_LIT[rnd.randrange(len(FMT_LIT))]
+        if cls_kind == 4:
+            parts.append(lit or "MM")
+            continue
+        if cls_kind == 3:
+            parts.append(lit + ["%%", "%%", "%"][rnd.randrange(3)] if parts or rnd.randrange(2) else lit + "%%")
+            continue
+        flagged = cls_kind == 0 or (cls_kind == 2 and rnd.randrange(2))
+        parts.append(lit + "%" + (FMT_FLAGS[rnd.randrange(len(FMT_FLAGS))] if flagged else "") + FMT_CONV[rnd.randrange(len(FMT_CONV))])
+    s = "".join(parts)
+    if cls_kind == 3:
+        # a lone '%' only at the very end (a '%' followed by a letter would be a directive)
+        s = s.replace("%%", "\0").replace("%", "").replace("\0", "%%") + ("%" if rnd.randrange(2) else "")
+        s = s or "%"
+    return s
+
+
+def fmt_cases(tier, seed):
+    rnd = random.Random(seed * 15485863 + 3)
+    out = []
+    walls = list(F_WALLS) + [_w(2024, 2, 9, 7, 5, 3, 40), _w(1999, 12, 31, 23, 59, 59, 999999), _w(2020, 11, 3), _w(1000, 1, 1, 0, 0, 1), _w(9999, 12, 28, 23, 59, 59, 999999)]
+    k = 0
+    for spec in FMT_FIXED:
+        for cls in (0, 1, 2):
+            for j in range(2):
+                k += 1
+                zone = FMT_ZONES[(k + j) % len(FMT_ZONES)]
+                if cls == 2 and isinstance(zone, str):
+                    zone = "UTC"
+                if cls == 1:
+                    zone = None
+                out.append({"stream": "fmt-spec-" + ["datetime", "date", "time"][cls], "fn": "fmt_spec", "args": [cls, zone, walls[(k * 5 + j) % len(walls)], k % 2, spec]})
+    n = 900 if tier == "quick" else 20000
+    for i in range(n):
+        cls = i % 3
+        ck = [0, 0, 1, 2, 3, 4, 0, 2][i % 8] if i % 16 else 0
+        spec = _fmt_random_spec(rnd, ck)
+        zone = FMT_ZONES[rnd.randrange(len(FMT_ZONES))]
+        if cls == 2 and isinstance(zone, str):
+            zone = "UTC"
+        if cls == 1:
+            zone = None
+        W = walls[rnd.randrange(len(walls))] if i % 2 else rnd.randrange(_w(1000, 1, 1), T.MAX_WALL - T.US_DAY * 3)
+        out.append({"stream": "fmt-spec-" + ["datetime", "date", "time"][cls], "fn": "fmt_spec", "args": [cls, zone, W, rnd.randrange(2), spec]})
+    for c in out:
+        if c["args"][4] != "" and "%" not in c["args"][4]:
+            c["ambient_depends"] = ["locale"]      # pendulum's own formatter (a spec without '%') legitimately follows set_locale (C08)
+    return out
+
+
+_FMT_PROBES = {}
+
+
+def _fmt_probe_classes(pendulum):
+    if not _FMT_PROBES:
+        def mk(base):
+            return type("Probe", (base,), {"strftime": lambda self, fmt: "S", "format": lambda self, fmt, locale=None: "F", "__str__": lambda self: "E"})
+        for nm in ("DateTime", "Date", "Time"):
+            _FMT_PROBES[nm] = mk(getattr(pendulum, nm))
+        for nm, base in (("datetime", _dt.datetime), ("date", _dt.date), ("time", _dt.time)):
+            _FMT_PROBES[nm] = type("NProbe", (base,), {"strftime": lambda self, fmt: "S", "__str__": lambda self: "E"})
+    return _FMT_PROBES
+
+
+def _fmt_build(classes, cls, tz, W, f):
+    """(value of the class `classes[0]`, of `classes[1]`, ...) with the fields of W"""
+    y, mo, d, h, mi, s, us = T.fields_of(W)
+    if cls == 0:
+        return [c(y, mo, d, h, mi, s, us, tzinfo=tz, fold=f) for c in classes]
+    if cls == 1:
+        return [c(y, mo, d) for c in classes]
+    return [c(h, mi, s, us, tzinfo=tz, fold=f) for c in classes]
+
+
+def _fmt_impl(pendulum, a):
+    import sys
+    cls, zone, W, f, spec = a
+    pr = _fmt_probe_classes(pendulum)
+    pn, nn = ["DateTime", "Date", "Time"][cls], ["datetime", "date", "time"][cls]
+    tz = None if zone is None else T.pzone(zone)
+    p, n, pp, npb = _fmt_build([getattr(pendulum, pn), getattr(_dt, nn), pr[pn], pr[nn]], cls, tz, W, f)
+    g = [_try(lambda: format(p, spec)), _try(lambda: "{:{}}".format(p, spec)), _try(lambda: "{0:{1}}|{0:{1}}".format(p, spec)), _try(lambda: p.__format__(spec)),
+         _try(lambda: p.strftime(spec))]
+    e = [_try(lambda: format(n, spec)), _try(lambda: n.strftime(spec))]
+    return [0, g, e, _try(lambda: format(pp, spec)), _try(lambda: format(npb, spec)), _tname(p), list(sys.version_info[:2])]
+
+
+def _fmt_portable(spec):
+    i = 0
+    while i < len(spec):
+        if spec[i] == "%":
+            if i + 1 >= len(spec) or spec[i + 1] not in FMT_PORTABLE:
+                return False
+            i += 2
+        else:
+            i += 1
+    return spec.isascii()
+
+
+def fmt_deviations(a, r):
+    cls, zone, W, f, spec = a
+    dev = []
+    g, e, route, nroute, tn, ver = r[1:7]
+    kindname = ["DateTime", "Date", "Time"][cls]
+    if tn != kindname:
+        dev.append(f"type is {tn}")
+    twice = g[0] + "|" + g[0] if isinstance(g[0], str) else g[0]
+    if not (g[0] == g[1] == g[3]) or g[2] != twice:
+        dev.append(f"format:spellings format(x, spec), str.format and x.__format__ disagree for spec {spec!r}: {g[:4]}")
+    if nroute != ("E" if spec == "" else "S"):
+        dev.append(f"twin:route the native {kindname.lower()} routes spec {spec!r} to {nroute}")
+    if spec == "" or "%" in spec:
+        # the native __format__: str(self) for the empty spec, strftime(spec) for EVERY other one
+        if g[0] != e[0]:
+            dev.append(f"format: {kindname} format(x, {spec!r}) = {g[0]!r} but the native object with the same fields and tzinfo gives {e[0]!r}")
+        if spec != "" and g[4] != e[1]:
+            dev.append(f"strftime: {kindname} strftime({spec!r}) = {g[4]!r} but native gives {e[1]!r}")
+        if route != ("E" if spec == "" else "S"):
+            dev.append(f"format:route spec {spec!r} is answered by {'format()' if route == 'F' else route} instead of {'str()' if spec == '' else 'strftime()'}")
+        # the in-interpreter native twin against the stdlib alone (portable directives only: the runner's CPython / glibc may differ otherwise)
+        y = T.fields_of(W)[0]
+        if (spec == "" or _fmt_portable(spec)) and y >= 1000 and not (isinstance(zone, int) and ("%Z" in spec or spec == "")) and isinstance(e[0], str):
+            tz = None if zone is None else T.ref_zone(zone)
+            ref = _fmt_build([[_dt.datetime, _dt.date, _dt.time][cls]], cls, tz, W, f)[0]
+            want = _try(lambda: format(ref, spec))
+            if want != e[0]:
+                dev.append(f"twin:native format(native, {spec!r}) inside the interpreter is {e[0]!r}, by the stdlib alone {want!r}")
+    else:
+        if route != "F":
+            dev.append(f"format:route spec {spec!r} without a percent sign is answered by {route}, not by pendulum's formatter")
+    return dev
+
+
 # ----------------------------------------------------------------------------- cases
 def _zones_for(tier, rnd):
     if tier == "thorough":
@@ -682,6 +1008,9 @@ def cases(tier, seed):
         out.append({"stream": "time-binary", "fn": "time_binary", "args": list(tv) + list(tv2) + [i % 3]})
     # operands carrying foreign tzinfo kinds
     out += foreign_cases(tier, seed)
+    # naive receivers under a history of process-wide configuration calls; __format__ specs
+    out += cfg_cases(tier, seed)
+    out += fmt_cases(tier, seed)
     # the generated override table against the real MRO
     for ci, c in enumerate(CLASSES):
         for ni, n in enumerate(STD):
@@ -690,7 +1019,8 @@ def cases(tier, seed):
 
 
 def search_cases(seed):
-    return [c for c in cases("thorough", seed) if c["fn"] in ("dt_unary", "dt_binary", "dt_astz")][::5] + foreign_cases("thorough", seed + 1)
+    return [c for c in cases("thorough", seed) if c["fn"] in ("dt_unary", "dt_binary", "dt_astz")][::5] + foreign_cases("thorough", seed + 1) \
+        + cfg_cases("thorough", seed + 1) + fmt_cases("thorough", seed + 1)
 
 
 def nontrivial(c):
@@ -751,6 +1081,10 @@ def impl_run(cases):
                 out.append([0, _ops(x, y), _sub(x, y), 1 if (x.tzinfo is y.tzinfo) else 0])
             elif fn == "dt_foreign":
                 out.append(f_impl(pendulum, a))
+            elif fn == "dt_cfg":
+                out.append(_cfg_impl(pendulum, a))
+            elif fn == "fmt_spec":
+                out.append(_fmt_impl(pendulum, a))
             elif fn == "dt_astz":
                 s1, W, f, s2, kind = a
                 p = _pdt(pendulum, s1, W, f)
@@ -925,6 +1259,10 @@ def model_calls(c, backend):
         return [("dt_binary", [isp1, o1, pid1] + _operand_enc(s1, W1, f1) + [isp2, o2, pid2] + _operand_enc(s2, W2, f2))]
     if fn == "dt_foreign":
         return f_model_calls(a)
+    if fn == "dt_cfg":
+        return cfg_model_calls(a)
+    if fn == "fmt_spec":
+        return [("fmt_route", [ord(ch) for ch in a[4]])]
     if fn == "dt_astz":
         s1, W, f, s2, kind = a
         try:
@@ -1037,6 +1375,11 @@ def _norm_impl(c, r):
         return [0] + ops + s + [same]
     if fn in ("dt_astz", "dt_replace"):
         return [0, 1 if r[1] == "DateTime" else 0] + r[2:]
+    if fn == "dt_cfg":
+        return cfg_norm(a, r)
+    if fn == "fmt_spec":
+        code = {"E": 0, "S": 1, "F": 2}
+        return [0, code.get(r[3], -1) if isinstance(r[3], str) else -1, code.get(r[4], -1) if isinstance(r[4], str) else -1]
     if fn == "dt_ctor":
         return [0, 1 if r[1] == "DateTime" else 0] + r[2:]
     if fn == "date_unary":
@@ -1064,6 +1407,9 @@ def same(c, m, r):
     if fn == "time_unary":
         return True
     n = _norm_impl(c, r)
+    if fn == "dt_cfg" and isinstance(n, list) and n and n[-1] is None and isinstance(m, list):
+        # the history does not fix the local-timezone setting (empty / rejected calls only): its value is whatever the process had before
+        return m[:-1] == n[:-1]
     if fn == "date_binary" and c["args"][6] == 2:
         # native - pendulum Date is answered by the native date.__sub__ (no override involved): a timedelta; same integers
         pass
@@ -1164,6 +1510,10 @@ def deviations(c, r):
         return [f"raised {r}"]
     if fn == "dt_foreign":
         return f_deviations(a, r)
+    if fn == "dt_cfg":
+        return cfg_deviations(a, r)
+    if fn == "fmt_spec":
+        return fmt_deviations(a, r)
     if fn == "dt_unary":
         spec, W, f = a
         po = [tuple(kv) for kv in r[1]]
@@ -1447,6 +1797,8 @@ def known(c, backend, r):
         y, mo, d, h, mi, s, us = T.fields_of(a[1])
         if t == ["Time", h, mi, s, us, 0, True]:
             return "time-drops-fold"
+    if fn == "dt_cfg" and kinds == {"astimezone:tzinfo"} and a[5] == 1 and isinstance(a[4], str) and r[0] == 0 and r[1][0] == "DateTime" and r[1][2] == 1:
+        return "astimezone-fold1-swaps-stdlib-tzinfo"
     if fn == "dt_astz" and kinds == {"astimezone:tzinfo"} and a[4] == 1 and isinstance(a[3], str) and r[0] == 0 and r[3] == 1:
         return "astimezone-fold1-swaps-stdlib-tzinfo"
     if fn == "dt_binary":
@@ -1548,3 +1900,32 @@ LEVEL_NOTE = LEVEL_NOTE + (" Model = code for the overrides date(), time(), time
                            "for_json via str(self)); create, replace, instance, astimezone and FixedTimezone.utcoffset / dst / fromutc are tied to the bodies translated in Gen/TzGlue.v (Proofs/DropInGlueFacts.v), "
                            "which exposed one wrong answer of the hand model (pd_instance on a naive value with fold 1), since corrected. Still hand + pinned: __sub__ / __rsub__ / "
                            "Interval.__new__, fromtimestamp, utcfromtimestamp, combine, strptime, Date.__sub__, _cmp.")
+
+
+# ---- process-wide configuration x naive receivers, and __format__ specs (appended, round 6) ----
+RULE = RULE + (" Stream family dt-cfg-* (fn dt_cfg; quick 700, thorough 12000 cases): ONE case = a HISTORY of process-wide configuration calls performed by the case itself "
+               "(set_local_timezone(z) / set_local_timezone() / entering and leaving test_local_timezone(z) / rejected calls set_locale('tlh'), week_starts_at(9), timezone('No/Where'); 11 history "
+               "shapes incl. the empty one, zones Asia/Tokyo, America/Toronto, Asia/Kathmandu, Europe/Paris, Australia/Lord_Howe, Pacific/Apia, fixed offsets, UTC; the previous setting is restored), "
+               "then a NAIVE DateTime (plain constructor | pendulum.naive | aware.replace(tzinfo=None); both folds; fixed witnesses, walls around the transitions of the configured / target zones read "
+               "as UTC and as local time, random) is asked every standard accessor (obs_dt: isoformat, strftime, format, ctime, timetuple, utctimetuple, timestamp, utcoffset, tzname, dst, date(), "
+               "time(), ...), ==/hash against the native value, and astimezone(pendulum zone | stdlib tzinfo | no argument); oracle = the naive datetime.datetime with the same fields inside the "
+               "same process AND the stdlib-only expectation (a naive value is system local time = UTC in the staged environment: the result is the rendering of the wall value read as a UTC "
+               "instant); model = dispatch entry dt_astz_cfg of Model/DropInCfg.v (the history is an INPUT of the model: run_cfg, pd_local_timezone is compared with pendulum.local_timezone() "
+               "after the history whenever the history fixes it; astimezone_after must not depend on it). The empty-history cases are ordinary naive-receiver cases and are sampled by the "
+               "runner's reverse / failed / ambient (set_local_timezone(Asia/Kathmandu)) passes. Stream family fmt-spec-{datetime,date,time} (fn fmt_spec; quick 1200, thorough 20300 cases): "
+               "format(x, spec), '{:{}}'.format(x, spec), a doubled str.format field, x.__format__(spec) and x.strftime(spec) for DateTime / Date / Time (zones None, UTC, Europe/Paris, "
+               "America/St_Johns, Asia/Kathmandu, +01:00, -03:30; both folds; years 1000..9999) over 50 fixed specs and grammar-generated ones in five classes: EVERY directive carries a glibc flag / "
+               "width / colon / E,O modifier (%-d %_d %^b %#Z %4Y %10j %:z %Ex %Od), plain directives, mixed, percent signs only (%%, a trailing lone %, 100%%), no percent sign (pendulum tokens), "
+               "and the empty spec; oracle = the native object with the same fields and the same tzinfo object inside the process (native __format__ = str for the empty spec, strftime for every "
+               "other), the stdlib-only native object for portable directives, equality of all spellings, and the ROUTE observed through probe subclasses that override strftime / format / "
+               "__str__ (pendulum and native); model = dispatch entry fmt_route (Model/DropInCfg.v fmt_route / native_fmt_route over the spec's code points). Specs without a percent sign go to "
+               "pendulum's own formatter by documented design: only the agreement of the spellings and the route are checked there (they follow set_locale: ambient_depends).")
+LEVEL_NOTE = LEVEL_NOTE + (" Round 6: process-wide configuration is INSIDE the Coq model for the one setting a drop-in method could consult (Model/DropInCfg.v: configuration = last successfully set "
+                           "local timezone, a rejected call changes nothing, test_local_timezone restores the default; astimezone of a naive DateTime = the native answer in the SYSTEM zone after every "
+                           "history; theorems failed_set_keeps_configuration, local_timezone_is_last_set, naive_astimezone_independent_of_history, naive_astimezone_is_native, "
+                           "naive_astimezone_utc_instant, naive_astimezone_configured_zone_refuted), tied by the dt-cfg correspondence (model vs implementation, incl. pendulum.local_timezone() after the "
+                           "history); the system zone is UTC (TZ=UTC of the staged environment; a system zone with transitions - C mktime semantics on skipped walls - is not exercised). The routing of "
+                           "FormattableMixin.__format__ is in the model as well (fmt_route; format_percent_spec_is_strftime, format_route_differs_only_without_percent) and is observed on the "
+                           "implementation through probe subclasses; the strftime TEXT stays oracle-only (platform strftime, compared with the native object). The accessor observations of the dt-cfg "
+                           "cases (obs_dt under configuration) are oracle-only.")
+ASSUMPTIONS = list(ASSUMPTIONS) + ["dt-cfg: the system local zone is UTC (TZ=UTC); glibc strftime extensions (flags, widths, %:z on CPython >= 3.12) are compared only against the native object in the same process"]
